@@ -3,14 +3,16 @@ CONSTANTS
   Inst = {a, b}
   Shard = {11, 21}
   MaxStreams = 3
-  MaxEnv = 3
-  MaxMsg = 1
-  AllowHold = TRUE
-  AllowBreak = TRUE
-  AllowRemove = TRUE
+  MaxEnv = 4
+  MaxMsg = 2
+  AllowHold = FALSE
+  AllowBreak = FALSE
+  AllowStall = TRUE
+  Cap = 1
+  AllowRemove = FALSE
   FixSenderPrune = TRUE
   FixGuardedDelete = TRUE
   FixOpening = TRUE
   FixPeerKey = TRUE
-INVARIANTS TypeOK TableSound HealthyListed NoDup MsgSound FixpointOK
+INVARIANTS MsgOrder TypeOK TableSound HealthyListed NoDup MsgSound FixpointOK
 CHECK_DEADLOCK FALSE
